@@ -235,6 +235,44 @@ fn with_blobs<T>(f: impl FnOnce(&Blobs) -> T) -> T {
     })
 }
 
+
+// ---------------------------------------------------------------------------------------------
+// observations: behaviours outside the statement's clauses — counted and reported in the coverage
+// map with their minimal witness, never a Violation.
+
+struct Observation {
+    instances: u64,
+    best: Option<(u64, String, Value)>,
+}
+
+static OBSERVATIONS: std::sync::Mutex<std::collections::BTreeMap<&'static str, Observation>> = std::sync::Mutex::new(std::collections::BTreeMap::new());
+
+fn observe(name: &'static str, cost: u64, what: String, witness: Value) {
+    let mut g = OBSERVATIONS.lock().unwrap_or_else(|e| e.into_inner());
+    let o = g.entry(name).or_insert(Observation { instances: 0, best: None });
+    o.instances += 1;
+    let better = match &o.best {
+        None => true,
+        Some((c, w, _)) => (cost, &what) < (*c, w),
+    };
+    if better {
+        o.best = Some((cost, what, witness));
+    }
+}
+
+fn observations_json(notes: &[(&str, &str)]) -> Value {
+    let g = OBSERVATIONS.lock().unwrap_or_else(|e| e.into_inner());
+    let mut m = serde_json::Map::new();
+    for (name, note) in notes {
+        let (instances, what, witness) = match g.get(name) {
+            Some(o) => (o.instances, o.best.as_ref().map(|b| b.1.clone()).unwrap_or_default(), o.best.as_ref().map(|b| b.2.clone()).unwrap_or(Value::Null)),
+            None => (0, String::new(), Value::Null),
+        };
+        m.insert(name.to_string(), json!({"instances": instances, "what": what, "witness": witness, "note": note}));
+    }
+    Value::Object(m)
+}
+
 // ---------------------------------------------------------------------------------------------
 // oracle pieces
 
@@ -350,6 +388,11 @@ fn roundtrip(doc: &Doc, wit: &Value, vs: &mut Vec<Violation>) -> String {
     }
     match serde_json::from_slice::<Doc>(&bytes) {
         Ok(back) if &back == doc => format!("roundtrip-equal({kind})"),
+        Ok(back) if kind == "payload-keys-equal-after-nfc" && back.payload() != doc.payload() => {
+            let text = wit.get("doc").and_then(Value::as_str).unwrap_or("");
+            observe("keys_equal_after_nfc", ((text.len() as u64) << 20) | (wit.get("index").and_then(Value::as_u64).unwrap_or(0) & 0xfffff) | if wit.get("edit").is_some() { 1 << 40 } else { 0 }, format!("decode(encode(doc)) != doc (payload differs); encoded: {}", String::from_utf8_lossy(&bytes).chars().take(300).collect::<String>()), wit.clone());
+            format!("roundtrip-differs({kind}:observation)")
+        }
         Ok(back) => {
             let fp = if kind == "plain" { "C19/encode-decode/differs".to_string() } else { format!("C19/encode-decode/{kind}") };
             let what = if back.payload() != doc.payload() { "payload" } else { "non-payload fields" };
@@ -640,6 +683,7 @@ fn main() {
          init: real Repository::init per listed document. Trivial = a threshold value that repeats an earlier one of the same delegates list; every other index is a distinct text",
         samples,
     );
+    cov.insert("observations".into(), observations_json(&[("keys_equal_after_nfc", "payload object with two keys that become equal under NFC: the canonical encoder drops one member, so the decoded document differs; classified with C18's observation (outside C18's clauses), not a violation here")]));
     cov.insert("delegates_alphabet".into(), json!(space.delegates.iter().map(|d| d.name.clone()).collect::<Vec<_>>()));
     cov.insert("versions".into(), json!(space.versions.iter().map(|v| v.0).collect::<Vec<_>>()));
     cov.insert("visibilities".into(), json!(space.visibilities.len()));
